@@ -10,6 +10,7 @@ that together cover the board.
 -/
 import ChessVerif.Props.C10.Basic
 import ChessVerif.Proofs.IterMask
+import ChessVerif.Proofs.IterLen
 
 namespace Chess.Props.C10
 open Chess Chess.MoveGen
@@ -56,6 +57,29 @@ theorem rounds_legals (b : Board) (h : b.WF = true) (ms : List BB)
     (Proofs.IterMask.rounds 5000 (legals b) ms).Perm b.legalsList ∧
     (Proofs.IterMask.rounds 5000 (legals b) ms).Nodup :=
   Proofs.IterMask.rounds_legals b h ms hcover
+
+/-! ### at every point of an iteration, also in the middle of a promotion group -/
+
+/-- `len` (= `size_hint`) is the number of moves still to come in every state reached by iterating: the promotion
+cursor may stand anywhere inside the group of a non-empty promotion entry (`Good`) -/
+theorem len_eq_midgroup (g : MoveGen) (hg : Good g) : g.len = (mvsAt g).length :=
+  len_eq_mvsAt g hg
+
+/-- **after any number of `next` calls** on an iterator that started at a group boundary (freshly generated, or just
+masked), `len` is exactly the number of moves not yet yielded … -/
+theorem len_along_iteration (g : MoveGen) (h0 : g.promoIdx = 0) (n : Nat) :
+    (iterate n g).len = (movesOf g).length - n :=
+  MoveGen.len_along_iteration g h0 n
+
+/-- … and the next call yields exactly the `n`-th move of what the iterator denoted at the start -/
+theorem next_along_iteration (g : MoveGen) (h0 : g.promoIdx = 0) (n : Nat) :
+    ((iterate n g).next).1 = (movesOf g)[n]? :=
+  MoveGen.next_along_iteration g h0 n
+
+/-- non-vacuity: two calls into a promotion group (cursor 2), six of the eight moves of a two-destination
+promotion entry are left -/
+example : (iterate 2 ⟨[⟨52, 0x3000000000000000#64, true⟩], 0, BB.full, 0⟩).len = 6 ∧
+    (iterate 2 ⟨[⟨52, 0x3000000000000000#64, true⟩], 0, BB.full, 0⟩).promoIdx = 2 := by decide
 
 /-- non-vacuity (test): captures first, then everything — the engine's root ordering — on the start position -/
 example : (Proofs.IterMask.rounds 5000 (legals Board.standard) [Board.standard.raw.color .black, BB.full]).length = 20 := by
